@@ -230,28 +230,58 @@ def script_timing(prog, tick):
     return m, ts, ex
 
 
-class Track:
-    """Replays a case against the implementation's observations and keeps, per
-    registered software, what the controller knows: kind, registration time,
-    incarnation start time, whether its software can still be running."""
+def incarnations(case, obs):
+    """What the controller knows about every software incarnation, from the
+    script and the implementation's observations only.
+    -> (incs, evinfo) with incs = [dict(host, inc, client, prog, start_ev, start_time,
+    killed_ev)], evinfo[k] = dict(name, before, after, o) for the executed events."""
+    incs, cur, evinfo = [], {}, []
+    elapsed = 0
+    nreg = 0
+    iobs = obs.get("evs", [])
+    for k, ev in enumerate(case["script"]):
+        if k >= len(iobs):
+            break
+        o = iobs[k]
+        name = ev[0]
+        before = elapsed
+        if name in ("client", "host"):
+            d = {"host": nreg, "inc": 0, "client": name == "client", "start_ev": k, "start_time": elapsed,
+                 "killed_ev": None, "prog": ev[1] if name == "client" else ev[1][0], "progs": None if name == "client" else ev[1]}
+            incs.append(d)
+            cur[nreg] = d
+            nreg += 1
+        elif name in ("crash", "bounce"):
+            for h in sel_hosts(ev[1], nreg):
+                d = cur.get(h)
+                if d is None or d["client"]:
+                    break          # Rt::crash / Rt::bounce panic for a client
+                if d["killed_ev"] is None:
+                    d["killed_ev"] = k
+                if name == "bounce":
+                    progs = d["progs"]
+                    n = {"host": h, "inc": d["inc"] + 1, "client": False, "start_ev": k, "start_time": elapsed,
+                         "killed_ev": None, "prog": progs[min(d["inc"] + 1, len(progs) - 1)], "progs": progs}
+                    incs.append(n)
+                    cur[h] = n
+        if "elapsed" in o:
+            elapsed = o["elapsed"]
+        evinfo.append({"name": name, "before": before, "after": elapsed, "o": o})
+    return incs, evinfo
 
-    def __init__(self, case, obs):
-        self.case, self.obs = case, obs
-        self.tick = case["cfg"]["tick_ns"]
-        self.hosts = []      # dicts
-        self.elapsed = 0     # Sim::elapsed as last observed
-        self.events = []     # per event: dict(before=elapsed before, after=.., name=..)
 
-    def walk(self):
-        iobs = self.obs.get("evs", [])
-        for k, ev in enumerate(self.case["script"]):
-            if k >= len(iobs):
-                break
-            o = iobs[k]
-            before = self.elapsed
-            if ev[0] in ("step", "run", "probe") and "elapsed" in o:
-                self.elapsed = o["elapsed"]
-            yield k, ev, o, before
+def end_markers(obs):
+    """(host, inc) -> (event index, sim_elapsed) of the instant the main future completed."""
+    out = {}
+    for e in obs.get("log", []):
+        if e[2] == 998:
+            out[(e[0], e[1])] = (e[5], e[7])
+    return out
+
+
+def main_drops(obs):
+    """(host, inc) -> event index at which the main future's guard was dropped."""
+    return {(d[0], d[1]): d[3] for d in obs.get("drops", []) if d[2] == 0}
 
 
 def histogram(cases):
